@@ -41,6 +41,7 @@ def scen_order(ch, params, out):
     for i, key in slots[2:]:
         cfgk[i][key] = ch.choose(f"kind(s{i}.{key})", kinds)
     merge = ch.choose("merge", params.get("merge", ["default"]))
+    dkr = ch.choose("dict_keys_regex", params.get("dkr", [None]))
     samples = [jsonsym.sample(None, f"s{i}", cfgk[i], False) for i in range(n)]
     sym = params.get("symbolic_leaves", True)
     samples_sym = [jsonsym.sample(ch, f"s{i}", cfgk[i], True) for i in range(n)] if sym else None
@@ -48,7 +49,7 @@ def scen_order(ch, params, out):
     vs = variants(n)
 
     def run(ss):
-        return pipeline.infer({"Root": copy.deepcopy(ss)}, merge=c01.merge_policy(merge))[1]
+        return pipeline.infer({"Root": copy.deepcopy(ss)}, merge=c01.merge_policy(merge), dkr=[dkr] if dkr else None)[1]
     try:
         c1 = oracles.canon_registry(run(samples))
     except Exception:
@@ -65,20 +66,20 @@ def scen_order(ch, params, out):
     if sym and not out.failures:
         try:
             with ch.traced():
-                ir1 = MetadataGenerator().generate(*samples_sym)
+                ir1 = MetadataGenerator(dict_keys_regex=[dkr] if dkr else None).generate(*samples_sym)
         except Exception:
             return
-        k1 = repr(oracles.canon_ir(ir1))
+        k1 = oracles.canon_str(oracles.canon_ir(ir1))
         for kind, order in vs:
             if kind in ("dup2", "dup_perm") and not params.get("all_traced"):
                 continue
             try:
                 with ch.traced():
-                    ir2 = MetadataGenerator().generate(*[samples_sym[i] for i in order])
+                    ir2 = MetadataGenerator(dict_keys_regex=[dkr] if dkr else None).generate(*[samples_sym[i] for i in order])
             except Exception as e:
                 out.fail("variant_raises", f"{type(e).__name__}: {e} for order {order} of {samples}", "variant_raises")
                 continue
-            k2 = repr(oracles.canon_ir(ir2))
+            k2 = oracles.canon_str(oracles.canon_ir(ir2))
             out.check(k1 == k2, "order_or_repetition_dependent",
                       lambda: f"shape {samples} with leaf values {ch.finalize()}: {k1} but {kind} {order}: {k2}",
                       f"order_dependent_ir:{kind}")
@@ -130,7 +131,9 @@ def parts(tier):
     if tier == "quick":
         return [CH("order", "vflib.props.c07:scen_order", {"kinds": "KINDS_ORDER", "samples": 3},
                    shards=16, timeout=170, path_timeout=60, mode="CH-P+CH-E"),
-                CH("merge_order", "vflib.props.c07:scen_merge_order", {"models": 4}, shards=16, timeout=170, path_timeout=30)]
+                CH("merge_order", "vflib.props.c07:scen_merge_order", {"models": 4}, shards=16, timeout=170, path_timeout=30),
+                CH("order_objects", "vflib.props.c07:scen_order", {"kinds": "KINDS_ORDER2", "samples": 3, "dkr": [None, "^\\d+$"], "symbolic_leaves": False},
+                   shards=16, timeout=170, path_timeout=60, mode="CH-E")]
     return [CH("merge_order", "vflib.props.c07:scen_merge_order", {"models": 5}, shards=16, timeout=900, path_timeout=30),CH("order", "vflib.props.c07:scen_order", {"kinds": "KINDS_SMALL", "samples": 3, "merge": ["default", "p50n2"], "all_traced": True},
                shards=16, timeout=700, path_timeout=90, mode="CH-P+CH-E"),
             CH("order_nested", "vflib.props.c07:scen_order", {"kinds": "KINDS_NEST", "samples": 3, "merge": ["default", "p50n2"],
